@@ -10,7 +10,9 @@ fetch / addressof of a name never touched before the close must raise; closing
 again must return None.  The copy is unmapped after the close (checked in
 /proc/self/maps), so an access that slips through dies with SIGSEGV: the child
 writes a breadcrumb before every step and the parent attributes the death to
-the (history, step) that was running.
+the (history, step) that was running.  A never-closed RTLD_GLOBAL decoy copy with
+the same symbol names makes an access that continues with the NULL handle
+(dlsym(NULL) = global lookup) return a value instead of failing by luck.
 """
 import os, sys, shutil, random
 from vlib import core, cc
@@ -29,6 +31,7 @@ ASSUMPTIONS = ["'raises an error' = any Exception other than SystemError/MemoryE
                "cdata / function objects obtained before the close are never used after it"]
 PER = 20
 TIMEOUT = 900
+MAX_CRASHES = 6
 
 CSRC = r'''
 struct pt { int x, y; };
@@ -478,19 +481,21 @@ def run(ctx, cases=None):
     else:
         setup = make_setup(ctx)
     nhist = sum(len(c['seeds']) for c in cases)
-    for rnd in range(6):
+    # chunks, so that a tree on which most histories kill the child is reported after a few
+    # deaths (each costs a child restart) instead of after one death per history
+    queue, chunk, rnd = list(cases), max(20, len(cases) // 8), 0
+    while queue and ctx.counters.get('child_crashes', 0) < MAX_CRASHES:
+        cases, queue, rnd = queue[:chunk], queue[chunk:], rnd + 1
         obs = core.run_cases(ctx, 'c37', setup, cases, variant='asan', timeout=TIMEOUT)
-        left = []
         for c, o in zip(cases, obs):
             rest = judge_case(ctx, c, o)
             if rest:
-                left.append(make_case(ctx, rest, '%s_r%d' % (c['no'], rnd)))
-        cases = left
-        if not cases:
-            break
-    if cases:
-        ctx.inconclusive('%d histories not run after repeated child deaths' %
-                         sum(len(c['seeds']) for c in cases))
+                queue.append(make_case(ctx, rest, '%s_r%d' % (c['no'], rnd)))
+    if queue:
+        ctx.note('stopped after %d child deaths: %d histories not run' %
+                 (ctx.counters.get('child_crashes', 0), sum(len(c['seeds']) for c in queue)))
+        if not ctx.violations and not ctx.known_hits:
+            ctx.inconclusive('histories not run after child deaths')
     ctx.count('histories_generated', nhist)
     done = ctx.counters.get('histories_inline', 0) + ctx.counters.get('histories_outofline', 0)
     if done and not ctx.counters.get('lib_unmapped_by_close'):
